@@ -4,6 +4,7 @@
 -/
 import Gts.Lemmas.Guest
 import Gts.Lemmas.Table
+import Gts.Lemmas.Record
 namespace Gts.C02
 open Gts Loc
 
@@ -99,5 +100,49 @@ theorem expand_wf (l : Loc) (i n : Int) (hw : wf l = true) (hn : 0 ≤ n) : wf (
 example : wf (compl (joined [ranged 2 5 true false, point 7, ranged 9 12 false true])) = true ∧
     shiftAbs (compl (joined [ranged 2 5 true false, point 7, ranged 9 12 false true])) 4 3 = false ∧
     (den (compl (joined [ranged 2 5 true false, point 7, ranged 9 12 false true]))).Nodup := by decide
+
+/-! ### record level: what `gts.Insert` / `gts.Embed` do to every feature of a record -/
+
+/-- **Insert, record level**: every host feature is present in the result with unchanged key
+and qualifiers and a location denoting its former residues at their new positions. -/
+theorem insert_host_feature_partial (host guest : Seq) (i : Int) (f : Feature) (hf : f ∈ host.feats)
+    (hw : wf f.loc = true) (hk2 : shiftAbs f.loc i guest.len = false) :
+    ∃ f' ∈ (host.insert i guest).feats, f'.key = f.key ∧ f'.props = f.props ∧
+      den f'.loc ≼ mapPos (insMap i guest.len) (den f.loc) :=
+  ⟨{ f with loc := f.loc.shift i guest.len },
+   mem_of_perm_map_append_left (insert_table_perm host guest i) hf, rfl, rfl,
+   shift_den_partial f.loc i guest.len hw guest.len_nonneg hk2⟩
+
+/-- **Embed, record level** (a part spanning `i` additionally covers the guest) -/
+theorem embed_host_feature_partial (host guest : Seq) (i : Int) (f : Feature) (hf : f ∈ host.feats)
+    (hw : wf f.loc = true) (hk2 : expandAbs f.loc i guest.len = false) :
+    ∃ f' ∈ (host.embed i guest).feats, f'.key = f.key ∧ f'.props = f.props ∧
+      stripGuest i guest.len (den f'.loc) ≼ mapPos (insMap i guest.len) (den f.loc) :=
+  ⟨{ f with loc := f.loc.expand i guest.len },
+   mem_of_perm_map_append_left (embed_table_perm host guest i) hf, rfl, rfl,
+   expand_den_partial f.loc i guest.len hw guest.len_nonneg hk2⟩
+
+/-- **guest features, record level** (Insert and Embed treat them alike) -/
+theorem insert_guest_feature_partial (host guest : Seq) (i : Int) (hi : 0 ≤ i) (f : Feature)
+    (hf : f ∈ guest.feats) (hw : wf f.loc = true) (hnn : nonneg f.loc = true)
+    (hk2 : expandAbs f.loc 0 i = false) :
+    (∃ f' ∈ (host.insert i guest).feats, f'.key = f.key ∧ f'.props = f.props ∧
+      den f'.loc ≼ mapPos (· + i) (den f.loc)) ∧
+    (∃ f' ∈ (host.embed i guest).feats, f'.key = f.key ∧ f'.props = f.props ∧
+      den f'.loc ≼ mapPos (· + i) (den f.loc)) :=
+  ⟨⟨{ f with loc := f.loc.expand 0 i },
+    mem_of_perm_map_append_right (insert_table_perm host guest i) hf, rfl, rfl,
+    guest_den_partial f.loc i hw hnn hi hk2⟩,
+   ⟨{ f with loc := f.loc.expand 0 i },
+    mem_of_perm_map_append_right (embed_table_perm host guest i) hf, rfl, rfl,
+    guest_den_partial f.loc i hw hnn hi hk2⟩⟩
+
+/-- nothing else appears: the result has exactly `|host| + |guest|` features -/
+theorem insert_feature_count (host guest : Seq) (i : Int) :
+    (host.insert i guest).feats.length = host.feats.length + guest.feats.length ∧
+    (host.embed i guest).feats.length = host.feats.length + guest.feats.length := by
+  constructor
+  · simpa using (insert_table_perm host guest i).length_eq
+  · simpa using (embed_table_perm host guest i).length_eq
 
 end Gts.C02
